@@ -16,7 +16,6 @@
 #include "cppPreprocessor.h"
 
 #include <ctype.h>
-#include <string.h>
 
 using std::string;
 
@@ -242,35 +241,85 @@ stringify(const string &source) {
 }
 
 /**
- * Returns true if writing a character b directly after a character a could
- * make the two tokens they belong to read as something else (one identifier
- * or number, a longer operator, a comment, a literal prefix or suffix), so
- * that white space is needed between them.
+ * Returns true if the token that ends at position left_end of left and the
+ * token that begins at position right_begin of right would read as something
+ * else when written without white space in between: one identifier or number,
+ * a longer operator, a comment, a literal with a prefix or suffix.
  */
 bool CPPManifest::
-would_paste(char a, char b) {
-  bool a_word = (isalnum((unsigned char)a) || a == '_');
+would_paste(const string &left, size_t left_end,
+            const string &right, size_t right_begin) {
+  if (left_end == 0 || right_begin >= right.size()) {
+    return false;
+  }
+  char a = left[left_end - 1];
+  char b = right[right_begin];
   bool b_word = (isalnum((unsigned char)b) || b == '_' || b == no_expand_mark);
-  if (a_word && b_word) {
+
+  if (isalnum((unsigned char)a) || a == '_') {
+    // An identifier or a number.  Find where it starts.
+    size_t word_start = left_end;
+    while (word_start > 0 && (isalnum((unsigned char)left[word_start - 1]) ||
+                              left[word_start - 1] == '_')) {
+      --word_start;
+    }
+    size_t start = word_start;
+    while (start > 0 && (isalnum((unsigned char)left[start - 1]) ||
+                         left[start - 1] == '_' || left[start - 1] == '.')) {
+      --start;
+    }
+    bool is_number = isdigit((unsigned char)left[start]) ||
+      (left[start] == '.' && isdigit((unsigned char)left[start + 1]));
+
+    if (b_word) {
+      return true;
+    }
+    if (b == '\'' || b == '"') {
+      if (is_number) {
+        // 1'0 is a number with a digit separator.
+        return (b == '\'');
+      }
+      // L"", u8'' and so on.
+      static const char *const prefixes[] = {
+        "L", "u", "U", "u8", "R", "LR", "uR", "UR", "u8R", nullptr
+      };
+      string word = left.substr(word_start, left_end - word_start);
+      for (int i = 0; prefixes[i] != nullptr; ++i) {
+        if (word == prefixes[i]) {
+          return true;
+        }
+      }
+      return false;
+    }
+    if (b == '.') {
+      return is_number;
+    }
+    if (b == '+' || b == '-') {
+      return is_number && (a == 'e' || a == 'E' || a == 'p' || a == 'P');
+    }
+    return false;
+  }
+
+  if (a == '"' || a == '\'') {
+    // A word after a literal is a literal suffix.
+    return b_word;
+  }
+  if (a == '.' && isdigit((unsigned char)b)) {
     return true;
   }
-  if ((a_word && (b == '"' || b == '\'')) ||
-      ((a == '"' || a == '\'') && b_word)) {
-    return true;
+
+  // Operators (and comment openers) that begin with the character pair.
+  static const char *const pairs[] = {
+    "++", "--", "->", "<<", ">>", "<=", ">=", "==", "!=", "&&", "||", "+=",
+    "-=", "*=", "/=", "%=", "&=", "|=", "^=", "::", ".*", "//", "/*", "##",
+    "..", ">*", "=>", "<:", "<%", "%>", ":>", "%:", nullptr
+  };
+  for (int i = 0; pairs[i] != nullptr; ++i) {
+    if (a == pairs[i][0] && b == pairs[i][1]) {
+      return true;
+    }
   }
-  if ((isdigit((unsigned char)a) && b == '.') ||
-      (a == '.' && isdigit((unsigned char)b))) {
-    // 1 . or . 5 would become a number.
-    return true;
-  }
-  if ((a == 'e' || a == 'E' || a == 'p' || a == 'P') && (b == '+' || b == '-')) {
-    // 1e + would become a number.
-    return true;
-  }
-  static const char operator_chars[] = "+-*/%<>=!&|^:.#";
-  return a != '\0' && b != '\0' &&
-         strchr(operator_chars, a) != nullptr &&
-         strchr(operator_chars, b) != nullptr;
+  return false;
 }
 
 /**
@@ -778,7 +827,7 @@ r_expand(const Expansion &expansion, const vector_string &args,
         return;
       }
       if (!result.empty() &&
-          (space || would_paste(result.back(), piece[0]))) {
+          (space || would_paste(result, result.size(), piece, 0))) {
         result += ' ';
       }
       result += piece;
